@@ -249,6 +249,7 @@ type histOpts struct {
 	checkpoints    bool
 	multiPart      bool
 	sameInterval   int // 0..100: probability that a write re-uses an earlier interval of its bucket
+	uniqueSlots    bool // every (bucket, interval) is written at most once in the history
 }
 
 var crashTFs = []string{"1Min", "1D", "1H", "1Sec"}
@@ -296,13 +297,29 @@ func genHistory(t *rapid.T, o histOpts) *wl.History {
 					slot := rapid.Int64Range(1, 40).Draw(t, "slot") // avoid Jan 1 (KF-08a) for 1D
 					e = y + slot*tfSec + rapid.Int64Range(0, tfSec-1).Draw(t, "off")
 				}
+				if o.uniqueSlots {
+					clash := false
+					for _, u := range used[bi] {
+						if hx.SlotStart(u, hx.TFDuration(h.Buckets[bi].TF)) == hx.SlotStart(e, hx.TFDuration(h.Buckets[bi].TF)) {
+							clash = true
+						}
+					}
+					if clash {
+						continue
+					}
+				}
 				used[bi] = append(used[bi], e)
 				p.Epoch = append(p.Epoch, e)
 				if h.Buckets[bi].Variable {
 					p.Nanos = append(p.Nanos, int32(rapid.IntRange(0, 999999000).Draw(t, "ns")))
 				}
 			}
-			op.Parts = append(op.Parts, p)
+			if len(p.Epoch) > 0 {
+				op.Parts = append(op.Parts, p)
+			}
+		}
+		if len(op.Parts) == 0 {
+			continue
 		}
 		h.Ops = append(h.Ops, op)
 	}
